@@ -55,7 +55,7 @@ def execute(case):
 
     run = chainexec.Run({"cfg": case["cfg"], "ops": case["ops"]}, ("C08",))
     run.execute()
-    if run.harness:
+    if run.degenerate():
         raise env.HarnessError(run.harness[0])
     led = run.world.uni
     accepted = [run.world.blocks[o["label"]] for o in case["ops"] if o["label"] in run.world.blocks]
